@@ -1,6 +1,8 @@
+import Chartparse.Proofs.RateProofs
 import Chartparse.Proofs.NpsProofs
 /-! Property theorems of C16 (statements only; helper lemmas live in `Proofs/`). -/
 namespace Chartparse.Props.C16
+open Chartparse.Inst Chartparse.Tempo
 open Chartparse Chartparse.Rate Chartparse.F64
 
 /-- closedness at both ends, stated on the count -/
@@ -20,5 +22,49 @@ theorem nps_value :
     ∃ v, npsCore notes s e = .ok v ∧
       R (3 * u) v ((count notes s e : Rat) / (((e - s : Int) : Rat) / 1000000)) :=
   @Chartparse.Rate.nps_value
+
+/-- **C16**: an absent track raises ValueError -/
+theorem C16_absent :
+    ∀ (c : Chart) (key : Nat × Nat) (s e : Bound) (h : findTrack c key = none),
+    notesPerSecond c key s e = .error .valueError :=
+  @Chartparse.Rate.nps_absent
+
+/-- **C16**: a track without notes raises ValueError -/
+theorem C16_empty :
+    ∀ (c : Chart) (key : Nat × Nat) (s e : Bound) (tr : Track) (h : findTrack c key = some tr)
+    (hn : tr.notes = []),
+    notesPerSecond c key s e = .error .valueError :=
+  @Chartparse.Rate.nps_empty
+
+/-- **C16**: otherwise the answer is the closed-interval count over the interval length, with the bounds resolved as the
+    statement says: omitted start ↦ time zero, omitted end ↦ the track's last note end, a tick ↦ its un-hinted
+    tempo-map time, a timestamp ↦ itself -/
+theorem C16_value :
+    ∀ (c : Chart) (key : Nat × Nat) (s e : Bound) (tr : Track) (h : findTrack c key = some tr)
+    (hn : tr.notes ≠ []),
+    ∃ last, lastNoteEnd tr.notes = some last ∧
+      notesPerSecond c key s e = (bounds c last s e >>= fun se => npsCore (tr.notes.map (·.ts)) se.1 se.2) :=
+  @Chartparse.Rate.nps_value_of_bounds
+
+theorem C16_bounds :
+    ∀ (c : Chart) (last : Int),
+    bounds c last .omitted .omitted = .ok (0, last) ∧
+    (∀ a, bounds c last (.time a) .omitted = .ok (a, last)) ∧
+    (∀ a b, bounds c last (.time a) (.time b) = .ok (a, b)) ∧
+    (∀ a x g, tsAt c.res c.sync.bpms a 0 = .ok (x, g) → bounds c last (.tick a) .omitted = .ok (x, last)) ∧
+    (∀ a b x g y g', tsAt c.res c.sync.bpms a 0 = .ok (x, g) → tsAt c.res c.sync.bpms b 0 = .ok (y, g') →
+      bounds c last (.tick a) (.tick b) = .ok (x, y)) ∧
+    (∀ b y g', tsAt c.res c.sync.bpms b 0 = .ok (y, g') → bounds c last .omitted (.tick b) = .ok (0, y)) :=
+  @Chartparse.Rate.bounds_spec
+
+/-- every failure of the rate query inside the typed overloads is a ValueError -/
+theorem C16_err :
+    ∀ (notes : List Int) (s e : Int) (err : PyErr) (h : npsCore notes s e = .error err),
+    err = .valueError :=
+  @Chartparse.Rate.npsCore_err
+
+/-- non-vacuity: three notes at 0 s, 1 s, 2 s; the closed interval [1 s, 2 s] holds two of them: 2 notes / 1 s -/
+example : (npsCore [0, 1000000, 2000000] 1000000 2000000).toOption = some 2 ∧
+    (npsCore [0, 1000000, 2000000] 2000000 2000000).toOption = none := by decide +kernel
 
 end Chartparse.Props.C16
